@@ -252,6 +252,71 @@ func compareNodes(r *ExecResult, a, b *Node, u *Universe, when string, newState 
 	}
 }
 
+// checkReverseDiff compares Blockchain.GetReverseStateDiff (what sync hands to plugins on a reorg,
+// and what RevertHead applies) with the definition: for every key of the head block's diff the
+// value the abstract state had before the block.
+func checkReverseDiff(r *ExecResult, n *Node, chain []*lib.BlockSpec, when string) {
+	if len(chain) == 0 {
+		return
+	}
+	rd, err := n.BC.GetReverseStateDiff()
+	if err != nil {
+		r.find("get-reverse-state-diff-fails", fmt.Sprintf("%s: GetReverseStateDiff on a node with head %d: %v", when, len(chain)-1, err), nil)
+		return
+	}
+	before := lib.NewAbsState()
+	for i, s := range chain[:len(chain)-1] {
+		before.Apply(uint64(i), s.Diff, s.Classes)
+	}
+	head := chain[len(chain)-1].Diff
+	bad := func(what string, got *felt.Felt, want felt.Felt) bool {
+		if got == nil || !got.Equal(&want) {
+			g := "<nil>"
+			if got != nil {
+				g = got.String()
+			}
+			r.find("reverse-state-diff-wrong", fmt.Sprintf("%s: GetReverseStateDiff of block %d: %s is %s, the value before the block was %s", when, len(chain)-1, what, g, want.String()),
+				map[string]string{"entry": what, "got": g, "want": want.String()})
+			return true
+		}
+		return false
+	}
+	r.hit("reverse-diff-checked")
+	for a, kv := range head.StorageDiffs {
+		for k := range kv {
+			var want felt.Felt
+			if c := before.Contracts[a]; c != nil {
+				want = c.Storage[k]
+			}
+			var got *felt.Felt
+			if m := rd.StorageDiffs[a]; m != nil {
+				got = m[k]
+			}
+			if bad(fmt.Sprintf("storage[%s][%s]", a.String(), k.String()), got, want) {
+				return
+			}
+		}
+	}
+	for a := range head.Nonces {
+		var want felt.Felt
+		if c := before.Contracts[a]; c != nil {
+			want = c.Nonce
+		}
+		if bad(fmt.Sprintf("nonce[%s]", a.String()), rd.Nonces[a], want) {
+			return
+		}
+	}
+	for a := range head.ReplacedClasses {
+		var want felt.Felt
+		if c := before.Contracts[a]; c != nil {
+			want = c.Class
+		}
+		if bad(fmt.Sprintf("class[%s]", a.String()), rd.ReplacedClasses[a], want) {
+			return
+		}
+	}
+}
+
 // sysContractEmptyButTouched reports whether, in the chain given by specs, some system contract
 // has been written to (so the legacy backend has a record for it) while its storage is empty.
 func sysContractEmptyButTouched(specs []*lib.BlockSpec) bool {
@@ -426,6 +491,7 @@ func execScenario(sc *Scenario, opt lib.GenOptions, withTrace bool) *ExecResult 
 			line = nl
 		}
 		restartA("before-compare after the reverts", false, 0)
+		checkReverseDiff(r, a, chain, fmt.Sprintf("round %d after the reverts", ri))
 		compareNodes(r, a, b, u, fmt.Sprintf("round %d after reverting %d block(s) to height %d", ri, k, p), sc.NewState, implicit, false)
 		r.Trace.checkpoint(a, u, !sc.LightModel && len(rd.Fork) == 0 && ri == len(sc.Rounds)-1)
 		if sc.Restart {
@@ -454,6 +520,25 @@ func execScenario(sc *Scenario, opt lib.GenOptions, withTrace bool) *ExecResult 
 			if j == 0 {
 				restartA(fmt.Sprintf("before-fork-store of block %d", bd.Block.Number), true, 1)
 			}
+			if j == 0 && sc.FailedOps {
+				if attempted, err := a.StoreWrongRoot(bd); attempted {
+					r.op("A.store of fork%d[0] with a wrong state root (must fail)", ri)
+					if err == nil {
+						r.Skipped = "a block with a wrong state root was stored (C02's property)"
+						return r
+					}
+					r.hit("failed-op:store-wrong-root")
+				}
+				if len(line.cg.Bundles) >= 2 {
+					// a block that does not extend the head (its parent is stored already)
+					if err := a.Store(line.cg.Bundles[len(line.cg.Bundles)-2]); err == nil {
+						r.Skipped = "a block that does not extend the head was stored (C02's property)"
+						return r
+					}
+					r.op("A.store of an already stored block (must fail)")
+					r.hit("failed-op:store-not-extending-head")
+				}
+			}
 			errA := storeOn(a, bd, spec)
 			r.op("A.store fork%d[%d] %s", ri, j, specSummary(spec))
 			if errA != nil {
@@ -465,6 +550,7 @@ func execScenario(sc *Scenario, opt lib.GenOptions, withTrace bool) *ExecResult 
 		}
 		if len(rd.Fork) > 0 {
 			restartA("before-compare after the fork", false, 0)
+			checkReverseDiff(r, a, chain, fmt.Sprintf("round %d after the fork", ri))
 			compareNodes(r, a, b, u, fmt.Sprintf("round %d after following the fork to height %d", ri, len(chain)), sc.NewState, implicit, crossed)
 			r.Trace.checkpoint(a, u, !sc.LightModel && ri == len(sc.Rounds)-1)
 		}
